@@ -11,7 +11,7 @@ from libertem_blobfinder.common import correlation as cc
 PROP = "C04"
 LEAN_MODULE = "BlobfinderModel.Properties.C04"
 GEN_FILES = ["Eval", "Crop", "Blocks"]
-FRAGMENTS = ["kernels", "evaluate", "evaluate_loop", "shift", "log_scale", "correlation_fft", "upsampling", "dtypes", "upsample_switch", "crop_cell", "fast_blocks", "full_blocks"]
+FRAGMENTS = ["kernels", "evaluate", "evaluate_loop", "shift", "log_scale", "correlation_fft", "upsampling", "dtypes", "upsample_switch", "crop_cell", "fast_blocks", "full_blocks", "wrappers_text"]
 DRIVER = "drvcorr"
 RULE = ("correspondence: upsampling geometry (region size, dftshift) of refine_center_upsampling for factors 2..50 vs the "
         "generated definitions; the same oracle cases re-run in a worker process with NUMBA_BOUNDSCHECK=1 (an out-of-bounds "
